@@ -40,6 +40,12 @@ MUTS = {
  "c09_scheduled_cancel": ("src/redress/policy/policy.py", "            elif outcome.stop_reason == StopReason.ABORTED:\n                record_cancel(ctx)", "            elif outcome.stop_reason in (StopReason.ABORTED, StopReason.SCHEDULED):\n                record_cancel(ctx)"),
  "c09_double_record": ("src/redress/policy/policy.py", "            record_success(ctx)\n            return result\n", "            record_success(ctx)\n            record_success(ctx)\n            return result\n"),
  "c08_drop_finally_async": ("src/redress/policy/async_policy.py", "        finally:\n            ensure_settled(ctx)\n\n    async def _call_without_retry", "        finally:\n            pass\n\n    async def _call_without_retry"),
+ "c12_wrapper_drops_sleeper": ("src/redress/policy/wrappers.py", "            before_sleep=before_sleep,\n            sleeper=sleeper,\n            on_attempt_start=on_attempt_start,", "            before_sleep=before_sleep,\n            on_attempt_start=on_attempt_start,"),
+ "c12_decorator_default_strategy": ("src/redress/policy/decorator.py", "        if strategy is None and strategies is None:", "        if strategy is None:"),
+ "c12_async_ctx_drops_abort": ("src/redress/policy/context.py", "        result = await self.policy.call(\n            lambda: func(*args, **kwargs),\n            on_metric=self.on_metric,\n            on_log=self.on_log,\n            operation=self.operation,\n            abort_if=self.abort_if,", "        result = await self.policy.call(\n            lambda: func(*args, **kwargs),\n            on_metric=self.on_metric,\n            on_log=self.on_log,\n            operation=self.operation,\n            abort_if=None,"),
+ "c15_breaker_event_unguarded": ("src/redress/policy/policy_helpers.py", "    if on_log is not None:\n        fields = {\"attempt\": 0, \"sleep_s\": 0.0, **tags}\n        try:\n            on_log(event, fields)\n        except Exception:\n            pass", "    if on_log is not None:\n        fields = {\"attempt\": 0, \"sleep_s\": 0.0, **tags}\n        on_log(event, fields)"),
+ "c15_narrow_except": ("src/redress/policy/state.py", "                self.on_metric(event, attempt, sleep_s, tags)\n            except Exception:", "                self.on_metric(event, attempt, sleep_s, tags)\n            except (ValueError, RuntimeError, TimeoutError):"),
+ "c15_async_bsleep_await_unguarded": ("src/redress/policy/retry_helpers.py", "    try:\n        result = hook(ctx, sleep_s)\n        if inspect.isawaitable(result):\n            await result\n    except Exception:\n        pass", "    try:\n        result = hook(ctx, sleep_s)\n    except Exception:\n        return\n    if inspect.isawaitable(result):\n        await result"),
  "c10_prune_lt": ("src/redress/budget.py", "self._events[0] <= cutoff", "self._events[0] < cutoff"),
  "c10_cap_ge": ("src/redress/budget.py", "if len(self._events) + cost > self.max_retries:", "if len(self._events) + cost >= self.max_retries:"),
 }
